@@ -48,6 +48,14 @@ ASSUMPTIONS = [
     "neighbours differ by far more than float64 round-off in the single encoded coordinate",
     "right type = isinstance(value, domain.value_type) (numpy.float64 is a float; numpy integer types are not int)",
     "vectors passed to from_ndarray have every coordinate in [0, 1] exactly",
+    "cast(member) only has to be a member (the statement does not demand cast(member) == member); a cast that moves a "
+    "member to another member is counted (note:cast_changes_member), not judged",
+    "active sub-ranges are legal domains of the same constructor inside the full range (choice: any non-empty subset, "
+    "ordinals: contiguous subsequence, finite ranges: not applicable - documented assert); for continuous domains a "
+    "vector inside the active bounds may decode outside the active interval by at most the round-trip band",
+    "a violation in the sampler of a domain is reported once per domain under one key whether it was seen through "
+    "Domain.sample, random_config of the single-domain ranges (active space) or random_config of the whole space, "
+    "provided the value equals what the domain's own sampler returns for the same RandomState",
 ]
 CASE_TIMEOUT = 120
 SHARDS_PER_JOB = 4
@@ -73,7 +81,7 @@ def preload():
 
 
 def cases(tier, seed):
-    n = 1100 if tier == "quick" else 28000
+    n = 2000 if tier == "quick" else 28000
     plan_cells = [(c, cell) for c in CTORS for cell in CELLS]
     out = []
     pos = 0
@@ -379,15 +387,15 @@ def _gen_params(rng, ctor, cell):
     if cell == "generic":
         size = rng.randint(2, 64)
         if cast_int:
-            lower = rng.randint(1, 50) if log else rng.randint(-100, 100)
+            lower = rng.randint(2, 50) if log else rng.randint(-100, 100)
             if log:
-                # ratio between neighbours >= 2: rounding to int cannot collide or reorder
+                # ratio between neighbours >= 2, spacing >= 2: rounding to int cannot collide or reorder
                 upper = lower * 2 ** (size - 1) * rng.randint(1, 3)
                 while upper > 10 ** 12:
                     size -= 1
                     upper = lower * 2 ** (size - 1)
             else:
-                upper = lower + (size - 1) * rng.randint(1, 20)
+                upper = lower + (size - 1) * rng.randint(2, 20)
             return {"ctor": ctor, "lower": lower, "upper": upper, "size": size}
         if log:
             lower = _mag(rng, -6, 3)
@@ -399,6 +407,8 @@ def _gen_params(rng, ctor, cell):
         return {"ctor": ctor, "lower": lower, "upper": upper, "size": size}
     kinds = ["size1", "eq", "huge", "tiny" if not cast_int else "collide", "adjacent" if not cast_int else "nonint",
              "size2"]
+    if cast_int:
+        kinds += ["dense", "dense", "dense"]
     kind = rng.choice(kinds)
     size = rng.randint(2, 64)
     if kind == "size1":
@@ -417,6 +427,9 @@ def _gen_params(rng, ctor, cell):
     if kind == "tiny":
         lower = _mag(rng, -12, -10)
         return {"ctor": ctor, "lower": lower, "upper": lower * rng.uniform(1.5, 50), "size": size}
+    if kind == "dense":  # small integer bounds, spacing of the same order as the rounding to int
+        lower = 1 if rng.random() < 0.7 else rng.randint(2, 6)
+        return {"ctor": ctor, "lower": lower, "upper": lower + rng.randint(2, 70), "size": rng.randint(3, 13)}
     if kind == "collide":  # cast_int with spacing < 1: several range positions round to the same int
         lower = rng.randint(1, 20)
         return {"ctor": ctor, "lower": lower, "upper": lower + rng.randint(1, max(1, size - 2)), "size": size}
@@ -425,7 +438,10 @@ def _gen_params(rng, ctor, cell):
         return {"ctor": ctor, "lower": lower, "upper": _nxt(lower), "size": rng.randint(2, 5)}
     if kind == "nonint":  # cast_int with non-integer bounds
         lower = rng.uniform(0.6, 30)
-        upper = lower + rng.uniform(0.1, 40) if not log else lower * rng.uniform(1.05, 40)
+        if rng.random() < 0.5:
+            upper = lower + rng.uniform(0.1, 40) if not log else lower * rng.uniform(1.05, 40)
+        else:
+            upper = lower * rng.uniform(1.05, 3) ** rng.randint(1, 4)
         return {"ctor": ctor, "lower": lower, "upper": upper, "size": rng.randint(2, 12)}
     if cast_int:
         lower = rng.randint(1, 100)
@@ -438,8 +454,21 @@ def _q_divides(x, q):
     return math.isclose(x / q, round(x / q))
 
 
+_COND_CACHE = {}
+
+
 def _cond(P):
     """Primary degenerate condition of a parameter set ('generic' if none): part of the mechanism key."""
+    key = json.dumps({k: v for k, v in P.items() if k != "active"}, sort_keys=True)
+    c = _COND_CACHE.get(key)
+    if c is None:
+        if len(_COND_CACHE) > 5000:
+            _COND_CACHE.clear()
+        c = _COND_CACHE[key] = _cond_uncached(P)
+    return c
+
+
+def _cond_uncached(P):
     ctor = P["ctor"]
     fam = FAM[ctor]
     if fam == "cat":
@@ -475,11 +504,14 @@ def _cond(P):
         if lower == upper:
             return "lower==upper"
         if ctor.endswith("_int"):
-            if float(lower) != round(lower) or float(upper) != round(upper):
-                return "noninteger_bounds"
             ref, _ = _ref_values(P)
             if len(set(ref)) < len(ref):
                 return "cast_int_collision"
+            pre = _ref_values(dict(P, ctor=ctor[:-4]))[0]
+            if min(b - a for a, b in zip(pre, pre[1:])) < 2.0:
+                return "cast_int_dense"  # rounding to int moves values by an amount comparable to their spacing
+            if float(lower) != round(lower) or float(upper) != round(upper):
+                return "noninteger_bounds"
         elif upper == _nxt(lower):
             return "adjacent"
         if mx >= 1e9:
@@ -511,7 +543,7 @@ def _cond(P):
 def _mcond(P):
     """Condition as used in mechanism keys: 'adjacent' (upper = nextafter(lower)) is the extreme of 'narrow'."""
     c = _cond(P)
-    return "narrow" if c == "adjacent" else c
+    return {"adjacent": "narrow", "cast_int_collision": "cast_int_dense"}.get(c, c)
 
 
 def _cond_struct(P):
@@ -678,6 +710,7 @@ class _Dom:
         self.flags = set()
         self.seen = set()
         self.clean = True  # no violation attributed to this domain
+        self.bad_clauses = set()
         self.d = None
         self.hp = None
         self.n = None
@@ -694,6 +727,7 @@ class _Dom:
     # -- reporting ------------------------------------------------------------------------------
     def viol(self, clause, mech, detail):
         self.clean = False
+        self.bad_clauses.add(clause)
         self.flags.add(mech.split(":")[0])
         if mech in self.seen:
             self.o.count("violations_repeated_in_domain")
@@ -896,7 +930,8 @@ class _Dom:
             if how is not None:
                 self.viol("cast", f"cast_nonmember:{self.ctor}:{self.nonmember_cond(how)}:{how}", {"member": m, "cast": c})
             elif c != m:
-                self.viol("cast", f"cast_changes_member:{self.ctor}:{self.mcond}", {"member": m, "cast": c})
+                # not demanded by the property (cast(member) only has to be a member): counted, not judged
+                o.count("note:cast_changes_member:" + self.ctor)
 
     # -- D: decoding of unit-cube points -----------------------------------------------------------
     def cube_points(self):
@@ -1390,7 +1425,11 @@ def _check_space(o, doms, seed):
     from syne_tune.optimizer.schedulers.searchers.utils.hp_ranges_factory import make_hyperparameter_ranges
 
     rng = random.Random(f"space:{seed}")
-    good = [D for D in doms if D.clean and D.hp is not None and D.enc and D.bounds is not None and D.json_ok]
+    # domains whose own encoder / decoder clauses held (sampling and JSON findings of a domain do not
+    # keep it out of the composition check; the JSON part below uses the JSON-clean ones only)
+    enc_clauses = {"construct", "encode", "decode", "roundtrip", "bounds", "finite_values"}
+    good = [D for D in doms if D.hp is not None and D.enc and D.bounds is not None and not (D.bad_clauses & enc_clauses)
+            and all(i in D.back for i in D.enc)]
     o.count("space_excluded_domains", len(doms) - len(good))
     if not good:
         return
@@ -1490,13 +1529,12 @@ def _check_space(o, doms, seed):
             if how is None:
                 continue
             if type(twin[k]) is type(cfg[k]) and twin[k] == cfg[k]:
-                D.viol("sample", f"sample_nonmember:{D.ctor}:{D.nonmember_cond(how)}:{how}:size1",
-                       {"value": cfg[k], "seed": s, "via": "random_config(space)"})
+                D.viol("sample", D.sample_key(how, "size1"), {"value": cfg[k], "seed": s, "via": "random_config(space)"})
             else:
                 viol("space", f"space_random_config_nonmember:{D.ctor}:{D.nonmember_cond(how)}:{how}", {"key": k, "value": cfg[k]})
     # active sub-ranges on a subset + fixed last position
     act = {k: by_name[k].Ad for k in order if by_name[k].Ad is not None and by_name[k].bounds_active is not None
-           and rng.random() < 0.7}
+           and "active" not in by_name[k].bad_clauses and rng.random() < 0.7}
     fixed = None
     if last is not None and last not in act and rng.random() < 0.7:
         D = by_name[last]
@@ -1547,8 +1585,17 @@ def _check_space(o, doms, seed):
                         how = _same(D.P, fixed, cfg[k])
                         if how is not None:
                             viol("space", f"space_fixed_last_pos_decode:{D.ctor}:{D.mcond}:{how}", {"fixed": fixed, "got": cfg[k]})
-    # JSON round trip of the whole space
+    # JSON round trip of the whole space (domains whose own JSON clause held)
+    for k in [k for k in order if not by_name[k].json_ok]:
+        del S[k]
+        del by_name[k]
+    order = [k for k in order if k in by_name]
+    if last not in by_name:
+        last = None
+    if not order:
+        return
     try:
+        hp = make_hyperparameter_ranges(S, name_last_pos=last)
         txt = json.dumps(config_space_to_json_dict(S))
         S2 = config_space_from_json_dict(json.loads(txt))
         eq = S2 == S and list(S2) == list(S)
